@@ -190,11 +190,8 @@ def r3(R3, cfg, F):
         add = [c for c in b.calls() if c.callee and c.callee.name == 'add_any']
         ok = False
         if len(look) == 1 and len(add) == 1:
-            sw = [bb for bb, t in b.terms() if t['k'] == 'switch' and b.access_path(t['discr']) == ['call@bb%d' % look[0].bb, 'discr']]
-            if len(sw) == 1:
-                none = [d for d, lab in b.edges(sw[0]) if lab == 'sw:0']
-                ok = bool(none) and add[0].bb not in b.reachable([0], removed_edges=[(sw[0], none[0])])
-                ok = ok and b.access_path(add[0].args[1]) == ['arg2'] and b.access_path(add[0].args[2]) == ['arg3']
+            ok = common.guarded_by_variant(b, add[0].bb, [['call@bb%d' % look[0].bb]], 0)
+            ok = ok and b.access_path(add[0].args[1]) == ['arg2'] and b.access_path(add[0].args[2]) == ['arg3']
         R3.check(ok, cfg, b.path, 'add_any-only-on-absent', 'get_or_insert must insert (id, default) only when the lookup found nothing', b.loc())
     # load_entry: add_asset only on the None arm
     b = F.body('<T as anycache::Cache>::load_entry')
@@ -205,12 +202,12 @@ def r3(R3, cfg, F):
         add = [c for c in b.calls() if c.callee and c.callee.name == 'add_asset']
         ok = False
         if len(look) == 1 and len(add) == 1:
-            sw = [bb for bb, t in b.terms() if t['k'] == 'switch' and b.access_path(t['discr']) == ['call@bb%d' % look[0].bb, 'discr']]
-            if len(sw) == 1:
-                none = [d for d, lab in b.edges(sw[0]) if lab == 'sw:0']
-                ok = bool(none) and add[0].bb not in b.reachable([0], removed_edges=[(sw[0], none[0])])
-                ok = ok and b.access_path(add[0].args[1]) == ['arg2'] and b.access_path(add[0].args[2]) == ['arg3'] \
-                    and b.access_path(look[0].args[1]) == ['arg2'] and b.access_path(look[0].args[2]) == ['arg3']
+            ok = common.guarded_by_variant(b, add[0].bb, [['call@bb%d' % look[0].bb]], 0)
+            ok = ok and b.access_path(add[0].args[1]) == ['arg2'] and b.access_path(add[0].args[2]) == ['arg3'] \
+                and b.access_path(look[0].args[1]) == ['arg2'] and b.access_path(look[0].args[2]) == ['arg3']
+            # and what the lookup found is what is returned on the other arm
+            oks = [st for _, _, st in b.assigns() if st['place']['l'] == 0 and st['rv']['k'] == 'aggregate' and st['rv'].get('variant_name') == 'Ok']
+            ok = ok and any(common.deep_path(b, st['rv']['ops'][0]) == ['call@bb%d' % look[0].bb, 'as:Some', '0'] for st in oks)
         R3.check(ok, cfg, b.path, 'load=get-or-(load,insert)', 'load_entry must return the cached entry when present and load+insert the same (id,type) otherwise', b.loc())
     # read-only operations reach no insertion (direct + CHA edges; indirect loader calls excluded by design)
     inserters = {p for p in F.bodies if re.search(r'as anycache::AssetMap>::insert$', p)} | {'anycache::RawCache::add_asset', '<T as anycache::Cache>::insert', 'anycache::CacheExt::add_any'}
@@ -306,7 +303,7 @@ def r5(R5, cfg, F):
         if len(ops) == 2:
             vals = list(ops.values())
             if meth == 'insert':   # or_insert / or_insert_with / match on the entry are the same keep-first operation
-                same = vals[0] == vals[1] and [k for _, k in vals[0] if k != 'READ'] == [k for _, k in want]
+                same = all([k for _, k in v if k != 'READ'] == [k for _, k in want] for v in vals)
             else:
                 same = vals[0] == vals[1] == want
             R5.check(same, cfg, 'anycache::AssetMap::' + meth, 'both-impls-use-' + '+'.join(n for n, _ in want),
